@@ -11,6 +11,30 @@ package main
 // definition a `go_unknown` value (GoUnknown "<source text>"), so that the
 // refinement lemma about it cannot be stated; nothing is dropped silently.
 //
+// Reference semantics.  The generated definitions bind VALUES.  Where Go binds
+// references the translation is either exact or refused (gotrans2.go,
+// "aliasing"):
+//   - slices: a second name for a storage (b := buf[:], b := buf[1:3], c := b,
+//     y := append(x, v), y := f(x)) is accepted only if one of the two names
+//     is never used again, or neither is written/appended to/passed to a
+//     writing callee from there on (marked `(* alias-review *)`); every
+//     translated in-place write (reader fill, PutUint64, a callee's state
+//     output) re-checks that no other live name shares the storage; append to
+//     a part of x needs x dead; a range over a slice must not write it;
+//   - a parameter's storage is the caller's: writing it needs the parameter to
+//     be a declared state output, or is recorded (funcInfo.dirty) and every
+//     caller must not look at what it passed again;
+//   - arrays are values: c := arr copies, arr[:] is a view of arr;
+//   - pointers: &x of a local, *p, struct copies through pointers, method
+//     values, closures (so also captured loop variables), named results,
+//     defer/go are refused; fields of a pointer receiver/parameter are read
+//     through pspec sources and written only as declared states; a receiver
+//     or an object under a second name is refused; two objects of one kind in
+//     one function are refused;
+//   - maps: only read-only sets; strings and errors are immutable values;
+//   - what an effectful call writes (states, buffers) is threaded through
+//     every if-join and loop that contains it (effectTargets).
+//
 // The Coq side of every name emitted here is coq/theories/Lib/GoLib.v.
 
 import (
@@ -353,7 +377,9 @@ type funcInfo struct {
 	params  []string // Go types of the Coq parameters (after flattening)
 	res     string   // Go type or tuple
 	ok      bool
-	externs []string // Section variables used (in order), also passed by callers
+	externs []string        // Section variables used (in order), also passed by callers
+	dirty   map[string]bool // slice parameters (not states) whose storage the body writes: a caller
+	// must not look at what it passed there again
 }
 
 type codeGen struct {
@@ -396,8 +422,9 @@ func pkgShort(p *pkg) string {
 // ---------------------------------------------------------------- translator
 
 type lvar struct {
-	coq string
-	typ string
+	coq     string
+	typ     string
+	isArray bool // a Go array ([k]byte): a value, not a reference; arr[:] is a view of it
 }
 
 type kont struct {
@@ -418,6 +445,11 @@ type tr struct {
 	lconsts     []map[string]cval
 	used        map[string]bool
 	psrc        map[string]pspec
+	self        *funcInfo
+	isParam     map[string]bool        // every parameter / receiver-field source name
+	group       map[string]int         // variables that may share one storage have one group number
+	roots       map[string]string      // variable -> the parameter whose storage it may share
+	appendSelf  map[*ast.CallExpr]bool // x = append(x..., v): one name before and after
 	pnil        map[string]pspec
 	res         []string
 	bad         []string
@@ -909,6 +941,9 @@ func (t *tr) expr(e ast.Expr) (string, string) {
 		if (ta != tStr && ta != tBytes && ta != tStrs) || x.Slice3 {
 			t.fail(e, "slice expression")
 		}
+		if x.Low == nil && x.High == nil {
+			return a, ta // x[:] has the elements of x (and shares its storage: see aliasGuard)
+		}
 		lo, hi := "0", "(go_len "+a+")"
 		if x.Low != nil {
 			l, tl := t.expr(x.Low)
@@ -1268,6 +1303,7 @@ func (t *tr) call(c *ast.CallExpr) (string, string) {
 			}
 		case "append":
 			if len(c.Args) == 2 {
+				t.appendGuard(c)
 				a, ta := t.expr(c.Args[0])
 				if c.Ellipsis.IsValid() {
 					b := t.exprAs(c.Args[1], ta)
@@ -1385,6 +1421,7 @@ func (t *tr) methodCall(c *ast.CallExpr, key string) (string, string) {
 		t.fail(c, "method call arity")
 		return "GoUnknown", fi.res
 	}
+	t.dirtyArgs(c, fi)
 	s := "(" + fi.coq
 	for i, ps := range fi.psrcs {
 		found := false
@@ -1521,6 +1558,15 @@ func (t *tr) assigned(nodes ...ast.Node) []string {
 				}
 			case *ast.IncDecStmt:
 				add(s.X)
+			case *ast.CallExpr:
+				// a call with effects rebinds what it writes: the reader/writer/lexer
+				// states, the receiver's state fields, the buffers it fills
+				for _, name := range t.effectTargets(s) {
+					if !seen[name] && t.lookup(name) != nil {
+						seen[name] = true
+						out = append(out, name)
+					}
+				}
 			case *ast.ExprStmt:
 				if c, ok := s.X.(*ast.CallExpr); ok {
 					if st, ok := t.cfg.appendTo[t.p.src(c.Fun)]; ok && t.isState(st) && !seen[st] {
@@ -1668,6 +1714,9 @@ func (t *tr) stmts(ss []ast.Stmt, k kont) string {
 					// var buf [8]byte: a zeroed byte array, handled as a slice of that length
 					if k := t.constOf(at.Len); k != nil && normT(t.p.src(at.Elt)) == "uint8" {
 						c := t.declare(n.Name, tBytes)
+						if v := t.lookup(n.Name); v != nil {
+							v.isArray = true
+						}
 						pre += "let " + c + " := (go_make_bytes " + k.v.ExactString() + ") in\n"
 						continue
 					}
@@ -1678,6 +1727,7 @@ func (t *tr) stmts(ss []ast.Stmt, k kont) string {
 					continue
 				}
 				if i < len(vs.Values) {
+					pre += t.aliasGuard(x, n, vs.Values[i])
 					if ty != "" {
 						val = t.exprAs(vs.Values[i], ty)
 					} else {
@@ -1918,16 +1968,27 @@ func (t *tr) assign(x *ast.AssignStmt) string {
 				vals, tys = append(vals, v), append(tys, ty)
 			}
 			var names []string
+			mark := ""
 			for i, l := range x.Lhs {
 				n, ok := lhsName(l)
 				if !ok {
 					t.fail(x, "assignment target")
 					return ""
 				}
+				if ac, ok := unparen(x.Rhs[i]).(*ast.CallExpr); ok && isIdent(ac.Fun, "append") && len(ac.Args) > 0 && t.baseName(ac.Args[0]) == n {
+					t.appendSelf[ac] = true
+				}
+				mark += t.aliasGuard(x, l, x.Rhs[i])
 				names = append(names, bind(n, tys[i], define))
+				// an array copied by value is an array
+				if id, ok := x.Rhs[i].(*ast.Ident); ok && n != "_" {
+					if sv, dv := t.lookup(id.Name), t.lookup(n); sv != nil && dv != nil && sv.isArray && sv != dv {
+						dv.isArray = true
+					}
+				}
 			}
 			if len(names) == 1 {
-				return "let " + names[0] + " := " + vals[0] + " in\n"
+				return mark + "let " + names[0] + " := " + vals[0] + " in\n"
 			}
 			return "let '(" + strings.Join(names, ", ") + ") := (" + strings.Join(vals, ", ") + ") in\n"
 		}
@@ -1939,15 +2000,19 @@ func (t *tr) assign(x *ast.AssignStmt) string {
 				return ""
 			}
 			var names []string
+			mark := ""
 			for i, l := range x.Lhs {
 				n, ok := lhsName(l)
 				if !ok {
 					t.fail(x, "assignment target")
 					return ""
 				}
+				if isSliceT(tys[i]) {
+					mark += t.aliasGuard(x, l, x.Rhs[0])
+				}
 				names = append(names, bind(n, tys[i], define))
 			}
-			return "let '(" + strings.Join(names, ", ") + ") := " + v + " in\n"
+			return mark + "let '(" + strings.Join(names, ", ") + ") := " + v + " in\n"
 		}
 	case token.ADD_ASSIGN, token.SUB_ASSIGN, token.MUL_ASSIGN, token.QUO_ASSIGN, token.REM_ASSIGN,
 		token.AND_ASSIGN, token.OR_ASSIGN, token.XOR_ASSIGN, token.SHL_ASSIGN, token.SHR_ASSIGN:
@@ -2160,6 +2225,15 @@ func (t *tr) rangeStmt(x *ast.RangeStmt, k kont, after func() string) string {
 		return "GoUnknown"
 	}
 	lst, lt := t.expr(x.X)
+	if rn := t.baseName(x.X); rn != "" {
+		// a range over a slice sees the writes the body makes into it
+		// (a range over an array ranges over a copy)
+		if v := t.lookup(rn); (v == nil || !v.isArray) && lt != tStr && lt != tUStr {
+			if u := t.scanUses(rn, func(n ast.Node) bool { return n.Pos() >= x.Body.Pos() && n.End() <= x.Body.End() }); u.written {
+				t.fail(x, "the body of a range over "+rn+" may write "+rn)
+			}
+		}
+	}
 	var elemCoq, elemT, conv string
 	switch lt {
 	case tStrs:
@@ -2306,7 +2380,7 @@ func (g *codeGen) translateFunc(p *pkg, dir, recv, name string, cfg transCfg) (s
 		}
 	}
 	key := p.dir + "|" + recv + "|" + name
-	fi := &funcInfo{coq: coqName}
+	fi := &funcInfo{coq: coqName, dirty: map[string]bool{}}
 	g.funcs[key] = fi
 	where := dir + ": func " + name
 	if recv != "" {
@@ -2327,6 +2401,8 @@ func (g *codeGen) translateFunc(p *pkg, dir, recv, name string, cfg transCfg) (s
 	}
 	pkgc, _ := p.consts()
 	t := &tr{g: g, p: p, file: file, fd: fd, cfg: cfg, imports: map[string]string{}, used: map[string]bool{},
+		isParam: map[string]bool{}, group: map[string]int{}, self: fi,
+		roots: map[string]string{}, appendSelf: map[*ast.CallExpr]bool{},
 		psrc: map[string]pspec{}, pnil: map[string]pspec{}, pkgc: pkgc, objects: map[string]string{},
 		coqName: coqName, where: where}
 	curTypeMap = cfg.typeMap
@@ -2399,6 +2475,19 @@ func (g *codeGen) translateFunc(p *pkg, dir, recv, name string, cfg transCfg) (s
 		expanded = append(expanded, ps)
 	}
 	params = expanded
+	{
+		// two objects of one kind reached by two paths may be one object
+		byKind := map[string][]string{}
+		for src, kind := range t.objects {
+			byKind[kind] = append(byKind[kind], src)
+		}
+		for kind, srcs := range byKind {
+			if len(srcs) > 1 {
+				sort.Strings(srcs)
+				t.fail(nil, "two "+kind+" objects ("+strings.Join(srcs, ", ")+") may be the same object; that is not modelled")
+			}
+		}
+	}
 	fi.states = append([]string{}, t.states...)
 	var sig []string
 	for _, ps := range params {
@@ -2411,6 +2500,7 @@ func (g *codeGen) translateFunc(p *pkg, dir, recv, name string, cfg transCfg) (s
 		cn := t.fresh(ps.name)
 		ps.name = cn
 		ps.typ = ty
+		t.isParam[ps.src] = true
 		if ty == tNilness {
 			t.pnil[ps.src] = ps
 		} else if isSimpleIdent(ps.src) {
@@ -2430,6 +2520,9 @@ func (g *codeGen) translateFunc(p *pkg, dir, recv, name string, cfg transCfg) (s
 		t.res = cfg.results
 	} else if fd.Type.Results != nil {
 		for _, f := range fd.Type.Results.List {
+			if len(f.Names) > 0 {
+				t.fail(f, "named results are not modelled")
+			}
 			n := len(f.Names)
 			if n == 0 {
 				n = 1
